@@ -13,7 +13,9 @@
 // table taken AFTER the call: "loc" = snapshot_locators() as [[chunk, locator expiry, [[peer, expiry]..]]..],
 // "bk" = the buckets as [[bucket index, position, peer, address, expiry]..].  256-bit ids are
 // interned: {"op":"id","n":k,"bytes":[32 bytes]} precedes the first event that mentions id k.
-// Times are milliseconds of virtual time since the behaviour started.
+// Times are milliseconds of virtual time since the behaviour started.  The hex form of the
+// ids an event names (selfhex / ph / tgh) is logged too, so that a behaviour cut out of a trace
+// can be turned back into a script (tools/check Cxx --replay).
 //
 // buckets_ is private and has no public projection; it is read through the explicit-
 // instantiation idiom (access checks do not apply to explicit template instantiation
@@ -127,7 +129,7 @@ struct Driver {
             auto self = parse_id(c.s("self"));
             table = std::make_unique<KademliaTable>(self, Config{});
             long long n = intern(self);
-            ev::Ev e("reset"); e.i("self", n); finish(e);
+            ev::Ev e("reset"); e.i("self", n).s("selfhex", hex_of(self)); finish(e);
             return;
         }
         if (!table) { std::fprintf(stderr, "dht: script must start with reset\n"); std::exit(2); }
@@ -135,11 +137,11 @@ struct Driver {
             PeerContact pc; pc.id = parse_id(c.s("p")); pc.address = addr_of(c.i("a"));
             long long n = intern(pc.id);
             table->add_contact(cid(c.i("c")), pc, std::chrono::seconds(c.i("ttl")));
-            ev::Ev e("add"); e.i("c", c.i("c")).i("p", n).i("a", c.i("a")).i("ttl", clamp32(c.i("ttl") * 1000)); finish(e);
+            ev::Ev e("add"); e.i("c", c.i("c")).i("p", n).s("ph", hex_of(pc.id)).i("a", c.i("a")).i("ttl", clamp32(c.i("ttl") * 1000)); finish(e);
         } else if (c.op == "withdraw") {
             auto id = parse_id(c.s("p")); long long n = intern(id);
             table->withdraw_contact(cid(c.i("c")), id);
-            ev::Ev e("withdraw"); e.i("c", c.i("c")).i("p", n); finish(e);
+            ev::Ev e("withdraw"); e.i("c", c.i("c")).i("p", n).s("ph", hex_of(id)); finish(e);
         } else if (c.op == "find") {
             auto res = table->find_providers(cid(c.i("c")));
             auto rj = contacts_json(res);
@@ -153,12 +155,12 @@ struct Driver {
             bool none = c.s("exp", "none") == "none";
             if (!none) pc.expires_at = std::chrono::steady_clock::time_point(std::chrono::nanoseconds(vclock::kSteadyEpochNs + c.i("exp") * 1'000'000LL));
             table->register_peer(pc);
-            ev::Ev e("reg"); e.i("p", n).i("a", c.i("a")).b("given", !none).i("exp", none ? 0 : clamp32(c.i("exp"))); finish(e);
+            ev::Ev e("reg"); e.i("p", n).s("ph", hex_of(pc.id)).i("a", c.i("a")).b("given", !none).i("exp", none ? 0 : clamp32(c.i("exp"))); finish(e);
         } else if (c.op == "closest") {
             auto tg = parse_id(c.s("tg")); long long n = intern(tg);
             auto res = static_cast<const KademliaTable&>(*table).closest_peers(tg, static_cast<std::size_t>(c.i("k")));
             auto rj = contacts_json(res);
-            ev::Ev e("closest"); e.i("tg", n).i("k", c.i("k")).raw("res", rj); finish(e);
+            ev::Ev e("closest"); e.i("tg", n).s("tgh", hex_of(tg)).i("k", c.i("k")).raw("res", rj); finish(e);
         } else if (c.op == "adv") {
             vclock::advance_ms(c.i("ms"));
             ev::Ev e("adv"); e.i("ms", c.i("ms")); finish(e);
